@@ -431,6 +431,12 @@ func driveLongValues(c *driverCtx, prop string) {
 			Z int64      `json:"z"`
 		}{}),
 		reflect.TypeOf(struct{}{}),
+		// null values are read into whatever the target offers (they leave it zero)
+		reflect.TypeOf(struct {
+			MN map[string]int64 `json:"mn"`
+			N  []bool           `json:"n"`
+			Z  int64            `json:"z"`
+		}{}),
 	}
 	// the same record name with other field types in a later file of the same process (whatever is remembered per
 	// record name must not leak), the record being skipped by the target in all of them
